@@ -119,6 +119,7 @@ def reemit_rule(P, D, rep, rid, dw, remap):
         I = Interp(P)
         topts = sorted(typed_options(P, D, cls))
         dropped = set()
+        skipped = set()
         npaths = 0
         calls = []
 
@@ -170,6 +171,10 @@ def reemit_rule(P, D, rep, rid, dw, remap):
             if want.startswith('write_'):
                 c_ = contents.get(id(state_['o']))
                 mine = [g for g in mine if len(g[1]) > 1 and g[1][1] is c_]
+            if not mine:
+                # the section holds (non-empty) content / is part of the tree, and on this path nothing is written for it
+                skipped.add(', '.join(g[0] for g in got))
+                continue
             if len(mine) != 1:
                 raise AnalysisError('DOM writer: expected one %s call for a %s, saw %s' % (want, cname, [g[0] for g in got]))
             kw = mine[0][2]
@@ -179,7 +184,12 @@ def reemit_rule(P, D, rep, rid, dw, remap):
                     dropped.add(k)
         if not npaths:
             raise AnalysisError('DOM writer: no path for %s' % cname)
-        if dropped:
+        if skipped:
+            rep.violation(rid, 'not-emitted:%s' % cname, entry.loc(),
+                          'a %s section of the tree with non-empty content is not written on some path through the DOM writer (no %s '
+                          'call for it; calls made: %s): whether it reaches the file depends on a condition on its content or options'
+                          % (cname, want, sorted(skipped)[0][:120]), path=[dw.name + '.write_stream'])
+        elif dropped:
             rep.violation(rid, 'option-dropped:%s:%s' % (cname, ','.join(sorted(dropped))), entry.loc(),
                           'for %s sections the DOM writer can call %s without the stored option(s) %s, depending on their value (e.g. a '
                           'falsy value such as indent=0, or a value equal to some other section\'s): the streaming writer\'s default / '
